@@ -36,6 +36,9 @@ def gen(rng, tier):
         for d in (1, 2, 3, 1010, 1011, 1012, 1013):
             for ns in ([0], [1] * 5 + [0], [B, 0], [d, 0], [max(1, d - 1), 1, 1, 1], [rng.randrange(1, 3000) for _ in range(4)] + [0]):
                 cases.append({'kind': 'reads', 'n': 5 * B, 'cut': kblk * BLK + d, 'ns': ns})
+    # very large sized reads (hundreds of blocks in one call) on a large file
+    for big in ((129536, 0), (200000, 7), (1, 250000, 0)):
+        cases.append({'kind': 'reads', 'n': 300 * B + 17, 'cut': None, 'ns': list(big)})
     # one-shot unblock: inverse of blocking, every truncation class, every trailer corruption
     for n in sorted(set([0, 1, 1011, 1012, 1013, 2024, 2025, 3036] + [rng.randrange(0, 3100) for _ in range(15 if tier == 'quick' else 200)])):
         cases.append({'kind': 'inv', 'n': n})
